@@ -1832,14 +1832,27 @@ class Interp:
                 outs.append(top(base.prov))
             for n in base.refs:
                 if isinstance(n, Seq):
-                    s = self.seq(fr, e, n.kind, ("slice", n.key))
-                    if n.items is not None and n._elem.bottom and all(p.concrete and len(p.consts) == 1 for p in parts):
+                    s = self.seq(fr, e, n.kind, "slice")  # one summary node per slicing site (slices of slices must not create new nodes for ever)
+                    if s is n:
+                        outs.append(ref(s))
+                        continue
+                    src_id = getattr(s, "slice_of", None)
+                    exact = n.items is not None and n._elem.bottom and all(p.concrete and len(p.consts) == 1 for p in parts) and src_id in (None, id(n)) and s._elem.bottom
+                    if exact:
                         lo, hi, st = [p.values()[0] for p in parts]
                         try:
-                            s.items = list(n.items[lo:hi:st])
+                            new_items = list(n.items[lo:hi:st])
                         except OP_ERRORS:
-                            self.grow_elem(s, n.elem)
-                    else:
+                            exact = False
+                        else:
+                            s.slice_of = id(n)
+                            if s.items != new_items:
+                                s.items = new_items if s.items is None or len(s.items) != len(new_items) else [join(a, b) for a, b in zip(s.items, new_items)]
+                    if not exact:
+                        if s.items is not None:
+                            self.grow_elem(s, join(*s.items))
+                            s.items = None
+                        s.slice_of = 0
                         self.grow_elem(s, n.elem)
                     outs.append(ref(s))
                 else:
